@@ -161,7 +161,12 @@ Definition silent_at (S : sources) (n : nat) (F : @gfilt scoef) : bool :=
   (let a0 := t_getitem frozen_alg (t_den F) 0 in delivering S n a0 && oq_eqb (sc_val a0) (Some 0)).
 
 (* fuel: what the consumer still asks for; n: the instant; xh, yh: histories *)
-Fixpoint trace_ok (S : sources) (e : fexp) (zero : Qc) (fuel n : nat) (xh yh : list Qc)
+Definition smem (i : nat) (l : list nat) : bool := existsb (Nat.eqb i) l.
+
+(* silent: coefficient sources that are not logging generators (a raw itertools object
+   inside the Stream): their reads are not events of the observed trace; the values
+   used and the end of the output still speak for them *)
+Fixpoint trace_ok (S : sources) (e : fexp) (zero : Qc) (silent : list nat) (fuel n : nat) (xh yh : list Qc)
                   (tr : list event) : bool :=
   match fuel with
   | O => is_nil tr                               (* nobody asks: nothing happens *)
@@ -170,16 +175,17 @@ Fixpoint trace_ok (S : sources) (e : fexp) (zero : Qc) (fuel n : nat) (xh yh : l
       | BErr _ => true
       | BOk F _ =>
           let srcs := 0%nat :: fdeps F in
+          let logged := filter (fun i => negb (smem i silent)) srcs in
           let '(rs, rest) := split_reads tr in
-          reads_ok S n srcs rs &&
+          reads_ok S n logged rs &&
           if forallb (fun i => match S i n with Some _ => true | None => false end) srcs
           then (* everything delivers: each source exactly once, then output n *)
             match rest with
             | EvYield y :: rest' =>
                 let x := snapshot S n 0 in
-                subset srcs (map fst rs) &&
+                subset logged (map fst rs) &&
                 match equation F x xh yh zero y with
-                | Some ok => ok && trace_ok S e zero fuel' (Datatypes.S n) (x :: xh) (y :: yh) rest'
+                | Some ok => ok && trace_ok S e zero silent fuel' (Datatypes.S n) (x :: xh) (y :: yh) rest'
                 | None => true                   (* a zero or undefined gain: no claim *)
                 end
             | [EvRaise XZeroDiv] => silent_at S n F     (* division by a zero gain: no claim *)
@@ -188,7 +194,10 @@ Fixpoint trace_ok (S : sources) (e : fexp) (zero : Qc) (fuel n : nat) (xh yh : l
           else (* the input or a coefficient source has ended: a clean stop *)
             match rest with
             | [EvStop] =>
-                ends_with_none rs &&
+                (ends_with_none rs ||
+                 (* a silent source ended: its StopIteration is not an event *)
+                 (existsb (fun i => smem i silent && match S i n with None => true | Some _ => false end) srcs
+                  && all_some rs)) &&
                 (* the input ended: no coefficient source is read for an output that does not come *)
                 match S 0%nat n with
                 | None => match rs with [_] => true | _ => false end
@@ -201,24 +210,24 @@ Fixpoint trace_ok (S : sources) (e : fexp) (zero : Qc) (fuel n : nat) (xh yh : l
   end.
 
 (* the whole observation of  list(islice(expr(seq, memory, zero), limit))  *)
-Definition spec_run (S : sources) (e : fexp) (mem : memarg) (zero : Qc) (limit : nat)
+Definition spec_run (S : sources) (e : fexp) (mem : memarg) (zero : Qc) (silent : list nat) (limit : nat)
                     (tr : list event) : bool :=
   match frozen_at S e 0 with
   | BErr _ => true
   | BOk F _ =>
       noncausal F || match a0_of F with Some a0 => is_nil (sc_deps (t_getitem frozen_alg (t_den F) 0)) && Qc_eqb a0 0 | None => false end ||
-      trace_ok S e zero limit 0 [] (normalise_memory (tdense_len (t_den F) - 1) zero mem) tr
+      trace_ok S e zero silent limit 0 [] (normalise_memory (tdense_len (t_den F) - 1) zero mem) tr
   end.
 
 (* a call that starts when every source has already delivered n items (an earlier call of
    the same filter object consumed them): the same demands, from the instant n on *)
-Definition spec_run_at (S : sources) (e : fexp) (mem : memarg) (zero : Qc) (limit n : nat)
+Definition spec_run_at (S : sources) (e : fexp) (mem : memarg) (zero : Qc) (silent : list nat) (limit n : nat)
                        (tr : list event) : bool :=
   match frozen_at S e n with
   | BErr _ => true
   | BOk F _ =>
       noncausal F || match a0_of F with Some a0 => is_nil (sc_deps (t_getitem frozen_alg (t_den F) 0)) && Qc_eqb a0 0 | None => false end ||
-      trace_ok S e zero limit n [] (normalise_memory (tdense_len (t_den F) - 1) zero mem) tr
+      trace_ok S e zero silent limit n [] (normalise_memory (tdense_len (t_den F) - 1) zero mem) tr
   end.
 
 (* the shape of a filter: its powers and which coefficients are Streams *)
